@@ -209,32 +209,32 @@ def instances(tier):
     mut = ['setL', 'setS', 'unset', 'applyI', 'applyO', 'mut', 'iter', 'check'] + (['setT'] if tier == 'thorough' else [])
     for n in (1, 2):
         for op in PT_OPS:
-            out.append(dict(kind='pt', n=n, seq=[op], to=40))
+            out.append(dict(kind='pt', n=n, seq=[op], to=240))
     for a in mut:
         for b in mut:
-            out.append(dict(kind='pt', n=2, seq=[a, b], to=60 if tier == 'quick' else 180))
+            out.append(dict(kind='pt', n=2, seq=[a, b], to=360))
     for seq in (['setL'], ['setL', 'unset'], ['setL', 'mut'], ['iter', 'unset'], ['unset', 'mut'], ['setL', 'applyO'], ['check', 'setL']) + ((['setS', 'setL'],) if tier == 'thorough' else ()):
-        out.append(dict(kind='pt', n=3, seq=seq, to=150 if tier == 'quick' else 400))
+        out.append(dict(kind='pt', n=3, seq=seq, to=600))
     for seq in (['setL', 'setL', 'mut'], ['iter', 'iter', 'unset'], ['setS', 'unset', 'setL'], ['unset', 'setL', 'mut'], ['iter', 'check', 'iter'], ['applyI', 'setL', 'applyO']):
-        out.append(dict(kind='pt', n=2, seq=seq, to=90 if tier == 'quick' else 300))
+        out.append(dict(kind='pt', n=2, seq=seq, to=600))
     if tier == 'thorough':
         for a in mut:
             for b in mut:
                 if a in ('setL', 'setT') and b in ('setL', 'setT'):
                     continue            # 49 x 49 mask combinations: only the plain pair below, with a long budget
-                out.append(dict(kind='pt', n=3, seq=[a, b], to=400))
+                out.append(dict(kind='pt', n=3, seq=[a, b], to=900))
         out.append(dict(kind='pt', n=3, seq=['setL', 'setL'], to=1500))
         for seq in (['setL'], ['setL', 'unset'], ['setS', 'setS'], ['setL', 'mut']):
             out.append(dict(kind='pt', n=4, seq=seq, to=600))
     for n in (1, 2, 3, 4):
         for a in VT_OPS:
-            out.append(dict(kind='vt', n=n, seq=[a], to=30))
+            out.append(dict(kind='vt', n=n, seq=[a], to=240))
     for a in VT_OPS:
         for b in VT_OPS:
             for n in ((2, 3) if tier == 'quick' else (2, 3, 4)):
-                out.append(dict(kind='vt', n=n, seq=[a, b], to=60))
+                out.append(dict(kind='vt', n=n, seq=[a, b], to=300))
     for seq in (['vsetS', 'vsetS', 'vcheck'], ['vsetL', 'vunset', 'vsetS'], ['vsetS', 'vunset', 'vcheck'], ['vunset', 'vsetL', 'viter']):
-        out.append(dict(kind='vt', n=3, seq=seq, to=90))
+        out.append(dict(kind='vt', n=3, seq=seq, to=400))
     for i in out:
         i['types'] = T[i['n']]
         i['name'] = '%s[n%d,%s]' % (i['kind'], i['n'], '>'.join(i['seq']))
